@@ -9,6 +9,7 @@ import (
 	"strings"
 
 	"verifsim/core"
+	"verifsim/gen"
 	"verifsim/harness"
 	"verifsim/world"
 )
@@ -317,3 +318,196 @@ func panicVerdict(c *Ctx, e *harness.Entry, res *harness.Result) bool {
 }
 
 func tickBudget(n int) int64 { return 4096 + 8*int64(n) }
+
+// EnvSpec is a drawn call environment that can be instantiated several times identically
+// (differential runs).
+type EnvSpec struct {
+	RK              int
+	NilCB           bool
+	UseActors       int // 0 real library callbacks, 1 all actors, 2 xmp actor only
+	Exif, Xmp, Prev ActorSpec
+}
+
+func drawEnvSpec(l *core.Lane, e *harness.Entry) EnvSpec {
+	var s EnvSpec
+	if !e.NeedSeek {
+		s.RK = l.Intn(harness.NumRK)
+	}
+	if e.Name == "jpeg.ScanJPEG" || e.Name == "isobmff.Reader" {
+		switch l.Intn(4) {
+		case 1:
+			s.NilCB = true
+		case 2:
+			s.UseActors = 1
+			s.Exif, s.Xmp, s.Prev = drawActorSpec(l), drawActorSpec(l), drawActorSpec(l)
+			// the property's premise: the Exif callback consumes its declared length
+			s.Exif.Mode = 0
+			s.Exif.RetErr = false
+		case 3:
+			s.UseActors = 2
+			s.Xmp = drawActorSpec(l)
+		}
+	}
+	return s
+}
+
+func (s EnvSpec) New(dev *world.Device) *harness.Env {
+	env := &harness.Env{RK: s.RK, NilCB: s.NilCB}
+	switch s.UseActors {
+	case 1:
+		env.ExifActor, env.XmpActor, env.PrevActor = s.Exif.New(dev, "exif"), s.Xmp.New(dev, "xmp"), s.Prev.New(dev, "prev")
+	case 2:
+		env.XmpActor = s.Xmp.New(dev, "xmp")
+	}
+	return env
+}
+
+func (s EnvSpec) String() string {
+	out := "reader=" + harness.RKNames[s.RK]
+	if s.NilCB {
+		out += " callbacks=nil"
+	}
+	if s.UseActors == 1 {
+		out += fmt.Sprintf(" actors exif=%s xmp=%s prev=%s", s.Exif, s.Xmp, s.Prev)
+	}
+	if s.UseActors == 2 {
+		out += fmt.Sprintf(" actor xmp=%s", s.Xmp)
+	}
+	return out
+}
+
+// sampleXMP returns one of the repository's XMP sample packets (nil if none).
+func sampleXMP(l *core.Lane) []byte {
+	var xs [][]byte
+	for _, s := range Samples {
+		if len(s.Name) > 4 && s.Name[len(s.Name)-4:] == ".xmp" {
+			xs = append(xs, s.Data)
+		}
+	}
+	if len(xs) == 0 {
+		return nil
+	}
+	return xs[l.Intn(len(xs))]
+}
+
+// generatedInput draws class (b): a well-formed generated file of some container, with the
+// layout map of its size/count fields where the generator has one.
+func generatedInput(c *Ctx, l *core.Lane) (data []byte, name string, fmap []gen.FieldSpan) {
+	rec := gen.DrawRecord(l, 1500)
+	kind := l.Intn(7)
+	opts := gen.LayoutOpts{Foreign: 10, IFD1: true}
+	big := l.Bool()
+	switch kind {
+	case 5: // JPEG with Exif + XMP segments
+		ly := gen.BuildTIFF(l, rec, opts)
+		enc := ly.Encode(big)
+		if len(enc.Bytes) > 65000 {
+			return gen.TIFFFile(l, enc.Bytes, true), "gen:TIFF", enc.Map
+		}
+		o := gen.JPEGOpts{Exif: [][]byte{enc.Bytes}, Max: 6}
+		if x := sampleXMP(l); x != nil && len(x) < 60000 {
+			o.XMP = [][]byte{x}
+		}
+		j := gen.DrawJPEG(l, o)
+		for _, s := range j.Segs {
+			fmap = append(fmap, gen.FieldSpan{Name: "seg.len", Off: s.Off + 2, Len: 2})
+			if s.Kind == "exif" {
+				for _, m := range enc.Map {
+					fmap = append(fmap, gen.FieldSpan{Name: m.Name, Off: m.Off + s.DataOff, Len: m.Len})
+				}
+			}
+		}
+		return j.Bytes, "gen:JPEG+XMP", fmap
+	case 6: // CR3 with XMP and preview
+		l1, l2, l4 := gen.BuildSplit(l, rec, opts)
+		var o gen.CR3Opts
+		o.CMT[0] = l1.Encode(big).Bytes
+		if l2 != nil {
+			o.CMT[1] = l2.Encode(big).Bytes
+		}
+		if l4 != nil {
+			o.CMT[3] = l4.Encode(big).Bytes
+		}
+		if l.Bool() {
+			// a small maker-note directory (CMT3) with embedded values only
+			o.CMT[2] = gen.DrawLayout(l, &gen.Dir{Name: "MkNote", Entries: []*gen.Entry{{ID: 1, Type: gen.TShort, Count: 1, Shorts: []uint16{uint16(l.Intn(9))}}, {ID: 2, Type: gen.TLong, Count: 1, Longs: []uint32{uint32(l.Intn(99))}}}}, gen.LayoutOpts{Canonical: true}).Encode(big).Bytes
+		}
+		o.XMP = sampleXMP(l)
+		o.Preview = append([]byte{0xff, 0xd8, 0xff, 0xdb}, l.Sub().Bytes(l.Intn(9000))...)
+		o.Surround, o.Use64 = l.Bool(), l.Bool()
+		cr := gen.DrawCR3(l, o)
+		return cr.Bytes, "gen:CR3+XMP+PRVW", cr.Map
+	default:
+		var parts [][]byte
+		var emap []gen.FieldSpan
+		if kind == gen.CCR3 {
+			l1, l2, l4 := gen.BuildSplit(l, rec, opts)
+			parts = encodeParts([]*gen.Layout{l1, l2, l4}, big)
+		} else {
+			ly := gen.BuildTIFF(l, rec, opts)
+			enc := ly.Encode(big)
+			if kind == gen.CJPEG && len(enc.Bytes) > 65000 {
+				kind = gen.CTIFF
+			}
+			parts = [][]byte{enc.Bytes}
+			emap = enc.Map
+		}
+		em := gen.Embed(l, kind, parts, l.Bool())
+		fmap = append(fmap, em.Map...)
+		if len(em.Parts) == 1 && em.Parts[0].Start >= 0 {
+			for _, m := range emap {
+				fmap = append(fmap, gen.FieldSpan{Name: m.Name, Off: m.Off + em.Parts[0].Start, Len: m.Len})
+			}
+		}
+		return em.Bytes, "gen:" + gen.ContainerNames[kind], fmap
+	}
+}
+
+// structFlips corrupts size/count/offset/type fields named by the layout map: 0, 1, max, +-1,
+// a value just past the end of the container, or random.
+func structFlips(l *core.Lane, data []byte, fmap []gen.FieldSpan, desc func(string, ...interface{})) []byte {
+	out := append([]byte(nil), data...)
+	if len(fmap) == 0 {
+		return applyFlips(l, data, len(data), desc)
+	}
+	n := 1 + l.Intn(3)
+	for i := 0; i < n; i++ {
+		f := fmap[l.Intn(len(fmap))]
+		if f.Off < 0 || f.Off+f.Len > len(out) || f.Len > 8 || f.Len == 0 {
+			continue
+		}
+		var cur uint64
+		for j := 0; j < f.Len; j++ {
+			cur = cur<<8 | uint64(out[f.Off+j])
+		}
+		var v uint64
+		switch l.Intn(7) {
+		case 0:
+			v = 0
+		case 1:
+			v = 1
+		case 2:
+			v = ^uint64(0)
+		case 3:
+			v = cur + 1
+		case 4:
+			v = cur - 1
+		case 5:
+			v = uint64(len(out)-f.Off) + uint64(l.Intn(9))
+		default:
+			v = flipVals[l.Intn(len(flipVals))]
+		}
+		le := l.Bool()
+		for j := 0; j < f.Len; j++ {
+			if le {
+				out[f.Off+j] = byte(v >> (8 * uint(j)))
+			} else {
+				out[f.Off+j] = byte(v >> (8 * uint(f.Len-1-j)))
+			}
+		}
+		if desc != nil {
+			desc("flip field=%s off=%d len=%d value=%#x le=%v", f.Name, f.Off, f.Len, v, le)
+		}
+	}
+	return out
+}
